@@ -22,19 +22,34 @@ variable {R : Type} [ResAlg R]
 no record and no container created, or exactly one message per planned instance. -/
 theorem create_stream_shape (a : CreateArgs R) (flt : Option Addr) (s : State R) :
     let ms' := (run (create a) flt s).2
-    (ms'.msgs = [⟨"", 0, false⟩] ∧ ms'.st.wls = s.wls ∧ ms'.st.cts = s.cts) ∨
+    (ms'.msgs = [⟨"", 0, false, none⟩] ∧ ms'.st.wls = s.wls ∧ ms'.st.cts = s.cts) ∨
       ms'.msgs.length = planned a.plan :=
   (create_stream a flt { st := s } rfl).1
 
 /-- **successes are truthful**: every success message names a workload that is recorded on the
-reported node and whose container exists and is running, in the state the call ends in. -/
+reported node with the reported resources and whose container exists and is running, in the state
+the call ends in. -/
 theorem success_truthful (a : CreateArgs R) (flt : Option Addr) (s : State R) :
     let ms' := (run (create a) flt s).2
     ∀ m ∈ ms'.msgs, m.ok = true →
-      (∃ w ∈ ms'.st.wls, w.id = m.id ∧ w.node = m.node) ∧ (⟨m.id, m.node, true⟩ : Ct) ∈ ms'.st.cts := by
+      (∃ w ∈ ms'.st.wls, w.id = m.id ∧ w.node = m.node ∧ m.res = some w.res) ∧
+      (⟨m.id, m.node, true⟩ : Ct) ∈ ms'.st.cts := by
   intro ms' m hm hok
-  have := (create_stream a flt { st := s } rfl).2 m hm hok
+  have := (create_stream a flt { st := s } rfl).2.1 m hm hok
   exact ⟨this.2.1, this.2.2⟩
+
+/-- **distinct successes name distinct workloads** -/
+theorem success_ids_distinct (a : CreateArgs R) (flt : Option Addr) (s : State R) :
+    (okIds (run (create a) flt s).2.msgs).Nodup :=
+  (create_stream a flt { st := s } rfl).2.2
+
+/-- **the whole call is clean**: after the call every record is one that was there before or one a
+success message reports, no earlier record is lost, every container is an earlier one or belongs to
+a reported success, capacity and nodes are untouched (so a failed instance left no record and no
+container); usage is again the sum of the records (`failures_leave_no_usage`). -/
+theorem create_whole_clean (a : CreateArgs R) (flt : Option Addr) (s : State R)
+    (hids : ∀ w ∈ s.wls, w.id < s.next) : Clean s (run (create a) flt s).2 :=
+  create_clean a flt { st := s } rfl hids
 
 /-- **the reported resources are the recorded ones, and one instance = one record**: a successful
 `doDeployOneWorkload` of resources `r` on node `n` adds exactly the record `⟨fresh id, n, r⟩`
